@@ -3,8 +3,8 @@
 # checks there: they must all pass (exit 0).  Never touches /repo.
 P=$1; shift
 tmp=$(mktemp -d /tmp/bencopy.XXXX); trap 'rm -rf $tmp' EXIT
-rsync -a --exclude .git /repo/ $tmp/ && patch -p1 -s --no-backup-if-mismatch -d $tmp -i $P || { echo "$(basename $P): patch does not apply"; exit 2; }
+(git -C /repo archive HEAD | tar -x -C $tmp) && patch -p1 -s --no-backup-if-mismatch -d $tmp -i $P || { echo "$(basename $P): patch does not apply"; exit 2; }
 for p in "$@"; do
-  out=$(cd /verif && ./bin/govc check --no-evidence --repo $tmp $p 2>&1); rc=$?
+  out=$(cd /verif && ${GOVC_BIN:-./bin/govc} check --no-evidence --repo $tmp $p 2>&1); rc=$?
   echo "benign=$(basename $P .diff) prop=$p rc=$rc :: $(echo "$out" | grep '^VIOLATION' | sed 's/.*obligation=//' | head -3 | tr '\n' ' ' | cut -c1-260)"
 done
